@@ -172,6 +172,15 @@ def impl_oracle(c, r):
         # SCPI allows it but the library's table does not list it (e.g. T, G, EX multipliers): not a C18 violation (nothing wrong is produced)
         return None
     want = lit * mean[0] + mean[1]
+    if mean[0] == 1 and mean[1] == 0 and r.startswith("V") and abs(lit) < Fr(10) ** 38 and (lit == 0 or abs(lit) > Fr(1, 10 ** 37)):
+        # the base unit: no arithmetic is involved, the stored f32 is the correctly rounded literal, bit for bit
+        import numlib, struct
+        lv = numlib.literal_value(m.group(1))
+        if lv is not None:
+            wb = numlib.float_bits(numlib.rn_float(lv[0], lv[1], "f32"), "f32")
+            gb = struct.unpack("<I", struct.pack("<f", float(r[1:])))[0]
+            if gb != wb and not (gb & 0x7fffffff == 0 and wb & 0x7fffffff == 0):
+                return "%s in the base unit must be the correctly rounded f32 %08x, implementation returned %08x (%s)" % (c["txt"].decode()[:60], wb, gb, r)
     if not close(_num(r), want): return "%s as %s must be %s (SCPI multiplier rule), implementation returned %s" % (c["txt"].decode(), c["q"], float(want), r)
     return None
 
